@@ -40,6 +40,7 @@ from . import c14_grammar as G
 SPEC = 'spec/web'
 PID = 'C14'
 SETTLE_TICKS = 400          # a legitimate exchange settles in < 20 ticks (measured); a livelock never does
+MAX_QUEUE = 2000            # events queued at once; a legitimate exchange queues < 10
 MAXC = 3                    # connection ids the monitor knows (HttpConnOps!ConnIds)
 
 KEYS = ('k', 'c', 'cls', 'wf', 'st', 'pr', 'sc', 'a', 'b')
@@ -70,16 +71,11 @@ class _FakeSock:
         return self.bio
 
 
-_VERSION = re.compile(rb'HTTP/(\d)\.(\d) ')
+_VERSION = re.compile(rb'HTTP/1\.([01]) ')
+MARKER = 'C14-Injected'        # header name the cookie mutants of the grammar try to smuggle into the response head
 
 
-def decode_responses(data, method='GET', limit=6):
-    """Successive responses in `data` -> [(end offset, status, parse, announces_close, why, version)].
-    parse: "ok" | "garbage" (http.client finds no status line it accepts / the
-    headers do not parse / the version token is not HTTP-name "/" DIGIT "." DIGIT,
-    which http.client does not check: why = "BadVersionToken") | "incomplete"
-    (headers fine, body shorter than announced); why = class name of http.client's
-    exception; version = 1000 * major + minor of the status line (0 if garbage)."""
+def _decode(data, method, limit):
     out = []
     pos = 0
     while pos < len(data) and len(out) < limit:
@@ -92,9 +88,12 @@ def decode_responses(data, method='GET', limit=6):
             return out
         m = _VERSION.match(data, pos)
         if not m:
-            out.append((len(data), 0, 'garbage', False, 'BadVersionToken', 0))
+            out.append((len(data), 0, 'garbage', False, 'ForeignVersion', 0))
             return out
-        ver = 1000 * int(m.group(1)) + int(m.group(2))
+        ver = 1000 + int(m.group(1))
+        if r.headers.get(MARKER) is not None:
+            out.append((len(data), r.status, 'garbage', False, 'InjectedHeader', ver))
+            return out
         toks = [t.strip() for t in ','.join(r.headers.get_all('Connection') or []).lower().split(',')]
         sc = 'close' in toks or (r.version == 10 and 'keep-alive' not in toks) or \
             (r.length is None and not r.chunked)          # close-delimited body
@@ -108,6 +107,27 @@ def decode_responses(data, method='GET', limit=6):
             short = True
         pos += bio.tell()
         out.append((pos, r.status, 'incomplete' if short else 'ok', sc, '', ver))
+    return out
+
+
+def decode_responses(data, method='GET', limit=6):
+    """Successive responses in `data` -> [(end offset, status, parse, announces_close, why, version)].
+    parse: "ok" | "garbage" | "incomplete" (headers fine, body shorter than announced).
+    garbage: http.client finds no status line it accepts / the headers do not parse (why =
+    class name of its exception); the status line is not labelled HTTP/1.0 or HTTP/1.1 - the
+    versions this server speaks; `HTTP/0.9 400`, `HTTP/1.380 400`, `HTTP/2.0 505` are no
+    responses of any HTTP version an HTTP/1.x client can interpret (why = "ForeignVersion");
+    the head contains a header field the request smuggled in through a cookie value (why =
+    "InjectedHeader": raw CR LF inside a field value = response splitting).
+    version = 1000 * major + minor of the status line (0 if garbage).
+    When the message was a HEAD request the response has no body; if the message was not
+    understood as such (bad request line) a body is legitimate too: the reading that
+    decodes cleanly is taken."""
+    out = _decode(data, method, limit)
+    if method == 'HEAD' and not (len(out) == 1 and out[0][2] == 'ok'):
+        alt = _decode(data, 'GET', limit)
+        if len(alt) == 1 and alt[0][2] == 'ok':
+            return alt
     return out
 
 
@@ -133,7 +153,8 @@ class World:
         self.sclosed = set()     # connections for which the component fired close(sock)
         self.gone_set = set()    # connections whose disconnect(sock) was dispatched
         self.dead = False
-        self.decoder = []        # what the decoder complained about (exception class names, "version")
+        self.decoder = []        # what the decoder complained about (exception class names, ...)
+        self.method = {}         # c -> method of the message being answered (HEAD: no body)
         self._writes = {}        # c -> [(index in self.lines where the write happened, bytes)]
         self._probe_seen = 0
 
@@ -167,7 +188,10 @@ class World:
 
             @handler('request', priority=200.0)
             def _r(self, event, req, res, *args, **kwargs):
-                world.lines.append(line('req', world.cid.get(id(req.sock), 0)))
+                rid = '%s %s%s' % (req.method, req.path, ('?' + req.qs) if req.qs else '')
+                if len(rid) > 60 or not all(32 < ord(ch) < 127 or ch == ' ' for ch in rid) or '"' in rid or '\\' in rid:
+                    rid = 'other'
+                world.lines.append(line('req', world.cid.get(id(req.sock), 0), pr=rid))
 
             @handler('httperror', priority=200.0)
             def _e(self, event, req, res, code=None, **kwargs):
@@ -233,7 +257,7 @@ class World:
             for pos, d in ws:
                 tot += len(d)
                 ends.append((tot, pos))
-            for n, (end, st, pr, sc, why, ver) in enumerate(decode_responses(data)):
+            for n, (end, st, pr, sc, why, ver) in enumerate(decode_responses(data, self.method.get(c, 'GET'))):
                 pos = next(p for t, p in ends if t >= min(end, tot))
                 inserts.append((pos, n, line('resp', c, st=st, pr=pr, sc=sc, a=ver)))
                 if why:
@@ -243,12 +267,28 @@ class World:
         for pos, n, ln in sorted(inserts, key=lambda t: (-t[0], -t[1])):
             self.lines.insert(pos, ln)
 
+    def settle(self):
+        """Tick until nothing is queued and no task is pending.  Not quiescent after
+        SETTLE_TICKS ticks, or more than MAX_QUEUE events queued (events that multiply:
+        each failing retry fires several more), is a livelock - the manager is abandoned
+        as it is, nothing is waited for."""
+        from ..httpdouble import NotQuiescent
+        root = self.h.root
+        for _ in range(SETTLE_TICKS):
+            n = len(root)
+            if not n and not root._tasks:
+                return
+            if n > MAX_QUEUE:
+                break
+            root.tick()
+        raise NotQuiescent('web pipeline does not settle (%d events queued)' % len(root))
+
     def _end_step(self, c):
         """Settle, decode, probe, tables."""
         from ..httpdouble import NotQuiescent
         why = ''
         try:
-            self.h.settle(SETTLE_TICKS)
+            self.settle()
         except NotQuiescent:
             why = 'livelock'
         except Exception as e:     # an exception left tick()
@@ -259,7 +299,7 @@ class World:
             seen = self._probe_seen
             try:
                 self.h.fire(self._probe_event())
-                self.h.settle(SETTLE_TICKS)
+                self.settle()
             except NotQuiescent:
                 why = 'livelock'
             except Exception as e:
@@ -301,7 +341,8 @@ class World:
     def feed(self, c, msg, then_disconnect=False):
         """Deliver msg.data as one read event; then_disconnect: the peer's hang-up is
         queued right behind the read (no tick in between)."""
-        self.lines.append(line('in', c, cls=msg.cls, wf=msg.wf, a=min(len(msg.data), 10 ** 9)))
+        self.lines.append(line('in', c, cls=msg.cls, wf=msg.wf, pr=msg.want, a=min(len(msg.data), 10 ** 9)))
+        self.method[c] = msg.method
         self.conns[c].feed(msg.data, settle=False)
         if then_disconnect:
             self.peer.add(c)
@@ -394,7 +435,7 @@ def script_to_json(script):
     for st in script:
         if st[0] in ('in', 'inx'):
             m = st[2]
-            out.append([st[0], st[1], {'cls': m.cls, 'sub': m.sub, 'wf': m.wf, 'base': m.base,
+            out.append([st[0], st[1], {'cls': m.cls, 'sub': m.sub, 'wf': m.wf, 'base': m.base, 'want': m.want, 'method': m.method,
                                        'hex': binascii.hexlify(m.data).decode(), 'resthex': binascii.hexlify(m.rest).decode()}])
         else:
             out.append(list(st))
@@ -407,7 +448,8 @@ def script_from_json(js):
         if st[0] in ('in', 'inx'):
             d = st[2]
             out.append((st[0], st[1], G.Msg(d['cls'], d['sub'], d['wf'], binascii.unhexlify(d['hex']),
-                                            binascii.unhexlify(d.get('resthex', '')), d.get('base', ''))))
+                                            binascii.unhexlify(d.get('resthex', '')), d.get('base', ''),
+                                            d.get('want', ''), d.get('method', 'GET'))))
         else:
             out.append(tuple(st))
     return out
@@ -516,12 +558,12 @@ def norm_real(lines):
     """The projection of a real trace the model commits itself to (tuples shaped
     like HttpConn!Compact): the size of an input and the version label of a response
     are not predicted."""
-    return tuple((ln['k'], ln['c'], ln['cls'], ln['st'], ln['pr'], bool(ln['sc']), 0 if ln['k'] in ('in', 'resp') else ln['a'], ln['b'])
-                 for ln in lines)
+    return tuple((ln['k'], ln['c'], ln['cls'], ln['st'], '' if ln['k'] in ('in', 'req') else ln['pr'], bool(ln['sc']),
+                  0 if ln['k'] in ('in', 'resp') else ln['a'], ln['b']) for ln in lines)
 
 
 def norm_model(out):
-    return tuple((o[0], o[1], o[2], o[3], o[4], bool(o[5]), o[6], o[7]) for o in out)
+    return tuple((o[0], o[1], o[2], o[3], '' if o[0] in ('in', 'req') else o[4], bool(o[5]), o[6], o[7]) for o in out)
 
 
 # ---------------------------------------------------------------------------
@@ -566,7 +608,7 @@ def scripts_truncations(rnd, quick):
     return out
 
 
-ONE_BYTE = G.Msg('Truncate', 'get11@1', 'partial', b'G', b'ET /?a=1&b=two HTTP/1.1\r\nHost: verif.example\r\n\r\n', 'get11')
+ONE_BYTE = G.realise('Truncate', None, base=G.BASE['get11'], offset=1)
 
 
 def scripts_late(rnd, quick):
